@@ -1081,7 +1081,7 @@ def c13(tier, seed):
                              draw(g("Int"), "after")],
     }
     pats = ["00", "ff", "01", "80", "7f"]
-    nrep = 1 if tier == "quick" else 10
+    nrep = 1 if tier == "quick" else 60
     for rep in range(nrep):
         for pn in sorted(props):
             inputs, rel = [], []
